@@ -2,7 +2,7 @@
 EXTENDS DataSpace
 MC_Keys == {"a", "da_temp_1", "da_temp_2"}
 MC_Keys2 == {"a", "da_temp_1"}
-MC_Vals == {<<1>>, <<2, 3>>}
+MC_Vals == {[cells |-> <<1>>, wide |-> FALSE], [cells |-> <<2, 3>>, wide |-> FALSE], [cells |-> <<4>>, wide |-> TRUE]}
 NoDev == {}
 DevAuto == {"auto_key_collision"}
 DevDb == {"dbspace_drop_before_eval"}
